@@ -5,6 +5,7 @@ import (
 	"encoding/json"
 	"fmt"
 	"io"
+	"strings"
 	"time"
 
 	"github.com/brutella/hc/util"
@@ -210,9 +211,71 @@ func c16Parse(c *fw.Ctx, in []byte, kind string) {
 	}
 }
 
+// c16Setters: the other setters. SetByte for every byte value on tags 0, 1, 6, 255; SetString for strings with
+// multi-byte characters, bytes that are not valid UTF-8, a NUL, 255 / 256 / 600 bytes. The container serialises to
+// exactly tag, length, the bytes; GetByte / GetString / GetBytes give them back, before and after a parse.
+func c16Setters(c *fw.Ctx, only string) {
+	for _, t := range []byte{0, 1, 6, 255} {
+		for b := 0; b < 256; b++ {
+			cas := c16Case{Kind: "setters", Sub: fmt.Sprintf("byte:%d:%d", t, b)}
+			if only != "" && only != cas.Sub {
+				continue
+			}
+			c.Eval(1)
+			cont := util.NewTLV8Container()
+			cont.SetByte(t, byte(b))
+			wire := cont.BytesBuffer().Bytes()
+			cls := "low"
+			if b >= 0x80 {
+				cls = "high"
+			}
+			switch {
+			case !bytes.Equal(wire, []byte{t, 1, byte(b)}):
+				c.Report("setters/set-byte-wire/"+cls, fmt.Sprintf("SetByte(%d, 0x%02x) serialises to % x, expected % x", t, b, trunc(wire, 8), []byte{t, 1, byte(b)}), cas)
+			case cont.GetByte(t) != byte(b):
+				c.Report("setters/get-byte/"+cls, fmt.Sprintf("SetByte(%d, 0x%02x): GetByte returns 0x%02x", t, b, cont.GetByte(t)), cas)
+			default:
+				back, err := util.NewTLV8ContainerFromReader(bytes.NewReader(wire))
+				if err != nil || back.GetByte(t) != byte(b) || !bytes.Equal(back.GetBytes(t), []byte{byte(b)}) {
+					c.Report("setters/parse-back-byte/"+cls, fmt.Sprintf("SetByte(%d, 0x%02x) does not come back after a parse (%v)", t, b, err), cas)
+				}
+			}
+			c.Class("setters:byte:" + cls)
+		}
+	}
+	strs := map[string]string{"ascii": "hello", "utf8": "héllo ✓ 😀", "invalid-utf8": "a\xff\xfe\x80b", "nul": "a\x00b", "high-bytes": string(pat(40, 0x80)),
+		"len255": strings.Repeat("é", 127) + "x", "len256": strings.Repeat("é", 128), "len600": strings.Repeat("✓", 200)}
+	for name, str := range strs {
+		cas := c16Case{Kind: "setters", Sub: "string:" + name}
+		if only != "" && only != cas.Sub {
+			continue
+		}
+		c.Eval(1)
+		cont := util.NewTLV8Container()
+		cont.SetString(9, str)
+		wire := cont.BytesBuffer().Bytes()
+		want := refctl.TLVEncode(refctl.T(9, []byte(str)))
+		switch {
+		case !bytes.Equal(wire, want):
+			c.Report("setters/set-string-wire/"+name, fmt.Sprintf("SetString(%q…) serialises to %d bytes that differ from the reference encoding (%d bytes)", trunc([]byte(str), 12), len(wire), len(want)), cas)
+		case cont.GetString(9) != str:
+			c.Report("setters/get-string/"+name, "GetString differs from what was set", cas)
+		default:
+			back, err := util.NewTLV8ContainerFromReader(bytes.NewReader(wire))
+			if err != nil || back.GetString(9) != str || !bytes.Equal(back.GetBytes(9), []byte(str)) {
+				c.Report("setters/parse-back-string/"+name, fmt.Sprintf("the string does not come back after a parse (%v)", err), cas)
+			}
+		}
+		c.Class("setters:string:" + name)
+	}
+}
+
 func c16Run(c *fw.Ctx) {
 	{
 		interfRun(c, "C16") // statement-level interleavings of operations on disjoint objects (subprocess)
+	}
+	if c.Shard == 1%c.NShards {
+		c16Setters(c, "")
 	}
 	// (a) every tag × every length
 	var tags []int
@@ -344,6 +407,7 @@ func init() {
 		ID:    "C16",
 		Level: "exploration",
 		Rule: "exhaustive enumeration (serialising is repeated after the first buffer was consumed partly and fully: same bytes): (a) all tags 0..255 × all value lengths 0..1024 (+5 fixed longer lengths) set on hc's container, wire bytes compared with an independent TLV8 encoder and parsed back; " +
+			"(a2) SetByte for all 256 byte values on tags 0, 1, 6, 255 and SetString for strings with multi-byte characters, invalid UTF-8, NUL, 255 / 256 / 600 bytes: exact wire bytes, getters before and after a parse; " +
 			"(b) all Set sequences of length ≤3 (quick) / ≤4 (thorough) over 2 tags × lengths {0,1,254,255,256,510,511}, each also with a lookup of every tag between the sets and with the caller reusing and wiping ONE value buffer after every Set; (c) all byte strings of length ≤2 (quick) / ≤3 (thorough) and every prefix / single-byte edit / deletion / insertion of 3 valid encodings as parser input. " +
 			"distinct_nontrivial = distinct (operation kind, length-class tuple) and parser outcome classes observed Plus, in a subprocess built with a scheduling point before EVERY statement of hc's packages (textual insertion through go build -overlay): every interleaving with at most 1 (thorough 2) preemptions of pairs of operations on disjoint objects — and, where the property is about served requests, of pairs of handlers on two verified connections of one accessory touching different characteristics — each side must observe exactly what it observes when the two run one after the other (module-level mutable state is what makes them differ).",
 		Run:    c16Run,
@@ -351,7 +415,9 @@ func init() {
 		Replay: func(c *fw.Ctx, raw json.RawMessage) {
 			var cas c16Case
 			json.Unmarshal(raw, &cas)
-			if cas.Kind == "parse" {
+			if cas.Kind == "setters" {
+				c16Setters(c, cas.Sub)
+			} else if cas.Kind == "parse" {
 				c16Parse(c, cas.Input, cas.Sub)
 			} else {
 				c16Sets(c, cas)
